@@ -114,6 +114,34 @@ fn run_case(dbd: &DbDef, r: &mut Rng, model: &mut model::Model, rep: &mut Report
     if bag(&pure).as_ref() != Some(&m) {
         rep.fail(FailKind::ModelDiff, None, "equi-join: engine and hash-join model differ", &format!("{}-- request: {}\n-- engine: {}\n-- model: {:?}", script, req, pure.brief(), m));
     }
+    // OR of equi-joins in the ON condition (the shape `analyze_or_equi_join` turns into a hash join
+    // on a "common" equality): branches sharing one column, and the TPC-H Q19 shape repeating one
+    // equality — always against the WHERE-over-cross-product spelling
+    let ints_a = a.schema.cols_of(Ty::Int);
+    let ints_b = b.schema.cols_of(Ty::Int);
+    let qa = |i: usize| format!("{}.{}", ta, a.schema.cols[i].0);
+    let qb = |i: usize| format!("{}.{}", tb, b.schema.cols[i].0);
+    let mut or_conds: Vec<String> = vec![];
+    if ints_b.len() >= 2 {
+        or_conds.push(format!("({} = {} OR {} = {})", qa(ints_a[0]), qb(ints_b[0]), qa(ints_a[0]), qb(ints_b[1])));
+        or_conds.push(format!("({} = {} OR ({} = {} AND {}))", qa(ints_a[0]), qb(ints_b[1]), qa(ints_a[0]), qb(ints_b[0]), extra_sql));
+    }
+    if ints_a.len() >= 2 {
+        or_conds.push(format!("({} = {} OR {} = {})", qa(ints_a[0]), qb(ints_b[0]), qa(ints_a[1]), qb(ints_b[0])));
+    }
+    or_conds.push(format!("(({} = {} AND {}) OR ({} = {} AND NOT ({})))", qa(ints_a[0]), qb(ints_b[0]), extra_sql, qa(ints_a[0]), qb(ints_b[0]), extra_sql));
+    for cond in or_conds {
+        family(
+            rep,
+            "or_of_equi_joins",
+            vec![
+                format!("SELECT {} FROM {} INNER JOIN {} ON {}", all_ab, ta, tb, cond),
+                format!("SELECT {} FROM {}, {} WHERE {}", all_ab, ta, tb, cond),
+                format!("SELECT {} FROM {} INNER JOIN {} ON {}", all_ab, tb, ta, cond),
+            ],
+            &mut db,
+        );
+    }
     // three tables: all permutations of a comma join
     if dbd.tables.len() >= 3 {
         let c = &dbd.tables[2];
